@@ -16,7 +16,7 @@ if s7.exists():
     tmpl = tmpl.replace("SEED7_SUMMARY", f"{len(r7) - len(missed)} of {len(r7)} are caught" + (f" (missed under that seed: {', '.join(missed)})." if missed else "."))
 else:
     tmpl = tmpl.replace("SEED7_SUMMARY", "(run pending).")
-tmpl = tmpl.replace("SEEDED_TABLE", "\n".join(rows))
+tmpl = tmpl.replace("N_SEEDED", str(len(rows) - 2)).replace("SEEDED_TABLE", "\n".join(rows))
 sw = []
 tot = [0, 0, 0]
 for f in sorted(glob.glob(str(ROOT / "selftest" / "sweep_*.json"))):
